@@ -3,6 +3,7 @@ package props
 import (
 	"fmt"
 	"sort"
+	"strconv"
 	"strings"
 
 	"verifharness/internal/fw"
@@ -190,6 +191,9 @@ func runC04(c *fw.Ctx, idx int) fw.Result {
 		res.Fail(class+":error-on-valid-input", fmt.Sprintf("variants returned an error on valid input: %v / %v", errA, errB), files, argv)
 		return res
 	}
+	if idx%20 == 6 {
+		ac.binVariants(c, &res, idx, -1, -1, false, 0, true, threads, outA)
+	}
 	namesA, mutsA, okA := model.ParseVariantsCSV(outA)
 	namesB, mutsB, okB := model.ParseVariantsCSV(outB)
 	if !okA || !okB {
@@ -370,3 +374,56 @@ func runC04(c *fw.Ctx, idx int) fw.Result {
 	}
 	return res
 }
+
+// binVariants runs the case through the real binary with the given options and compares
+// with the entry point's output.
+func (ac *annoCase) binVariants(c *fw.Ctx, res *fw.Result, idx int, start, end int, aggregate bool, threshold float64, appendSNP bool, threads int, want string) {
+	files := map[string]string{"anno." + ac.format: ac.annoTxt}
+	if ac.form == "fasta" {
+		files["msa.fasta"] = ac.msaTxt
+	} else {
+		files["in.sam"] = ac.sf.Text
+		files["ref.fasta"] = ac.refTxt
+	}
+	useStdin := ac.form == "sam" && idx%2 == 0
+	binSample(c, res, idx, "variants-"+ac.form, files, func(p func(string) string) []string {
+		var a []string
+		if ac.form == "fasta" {
+			a = []string{"variants", "--msa", p("msa.fasta"), "-a", p("anno." + ac.format)}
+			if ac.refID != "" {
+				a = append(a, "-r", ac.refID)
+			}
+		} else {
+			a = []string{"sam", "variants", "-a", p("anno." + ac.format)}
+			if !useStdin {
+				a = append(a, "-s", p("in.sam"))
+			}
+			if ac.refFile {
+				a = append(a, "-r", p("ref.fasta"))
+			}
+		}
+		a = append(a, "-t", fmt.Sprint(threads))
+		if start != -1 {
+			a = append(a, "--start", fmt.Sprint(start))
+		}
+		if end != -1 {
+			a = append(a, "--end", fmt.Sprint(end))
+		}
+		if aggregate {
+			a = append(a, "--aggregate", "--threshold", strconvFloat(threshold))
+		}
+		if appendSNP {
+			a = append(a, "--append-snps")
+		}
+		return a
+	}, stdinOrNil(useStdin, ac.sf.Text), map[bool]string{true: "", false: "-o"}[idx%3 == 0], want)
+}
+
+func stdinOrNil(use bool, s string) []byte {
+	if use {
+		return []byte(s)
+	}
+	return nil
+}
+
+func strconvFloat(f float64) string { return strconv.FormatFloat(f, 'g', -1, 64) }
